@@ -111,44 +111,7 @@ def run(ctx, sess):
     ctx.floor('deadline compare in jls_twr_flush', len(deadline), 1)
 
     # ---- C07.3
-    lp = loops(run_fn)
-    peek_blocks = [ev.block.id for ev in run_fn.calls(('jls_mrb_peek', 'jls_mrb_pop'))]
-    if not peek_blocks:
-        raise AnalysisBroken('jls_twr_run takes nothing from the ring (no jls_mrb_peek / jls_mrb_pop)')
-    inner = None
-    for hdr, body in lp.items():
-        if peek_blocks[0] in body and (inner is None or len(body) < len(inner[1])):
-            inner = (hdr, body)
-    if inner is None:
-        ctx.ob('C07.3', False, run_fn.name, 'inner consumer loop', run_fn.where(), 'jls_mrb_peek is not inside a loop')
-    else:
-        hdr, body = inner
-        nexits = 0
-        for bid in body:
-            b = run_fn.blocks[bid]
-            for s, label in b.succs:
-                if s.id in body:
-                    continue
-                nexits += 1
-                facts = cond_facts(run_fn, b.cond, label)
-                ok = any(kind == 'eq' and c == 0 for (var, kind, c) in facts) and \
-                    df.derives(run_fn, b.cond, lambda n_: n_.get('op') == 'call' and n_.get('callee') in ('jls_mrb_peek', 'jls_mrb_pop'), *df.cond_pos(b))
-                ctx.ob('C07.3', ok, run_fn.name, 'exit of the drain loop', '%s:%d' % (run_fn.file, b.line),
-                       'left only when the peeked message is NULL' if ok else 'the drain loop can be left while messages remain (exit on `%s`)' % show(b.cond))
-            for ev in b.events:
-                if ev.k == 'ret':
-                    nexits += 1
-                    ctx.ob('C07.3', False, run_fn.name, 'exit of the drain loop', ev.where(), 'return inside the drain loop')
-        ctx.floor('exits of the drain loop', nexits, 1)
-        # quit is tested only outside the inner loop
-        for bid in body:
-            b = run_fn.blocks[bid]
-            if b.cond is not None and any(n_.get('op') == 'member' and n_.get('field') == 'quit' for n_ in walk(b.cond)):
-                ctx.ob('C07.3', False, run_fn.name, '`quit` tested inside the drain loop', '%s:%d' % (run_fn.file, b.line),
-                       'accepted messages can be abandoned when quit is set')
-        outer_tests = [b for b in run_fn.blocks.values() if b.id not in body and b.cond is not None
-                       and any(n_.get('op') == 'member' and n_.get('field') == 'quit' for n_ in walk(b.cond))]
-        ctx.ob('C07.3', bool(outer_tests), run_fn.name, '`quit` tested by the outer loop', run_fn.where(), '%d test(s) outside the drain loop' % len(outer_tests))
+    drain_rule(ctx, P, 'C07.3')
 
     # ---- C07.4
     cl = P.fn('jls_twr_close')
@@ -322,3 +285,47 @@ def run(ctx, sess):
             ctx.ob('C07.9', ok, fn.name, 'result of %s()' % name, ev.where(),
                    how if ok else 'the send can fail (queue full for the whole timeout); ignoring it means the message the caller relies on was never enqueued')
     ctx.floor('send call sites', n9, 8)
+
+
+def drain_rule(ctx, P, rule):
+    """the consumer's inner loop is left only on an empty queue; quit is examined only by the outer loop"""
+    run_fn = P.fn('jls_twr_run')
+    lp = loops(run_fn)
+    peek_blocks = [ev.block.id for ev in run_fn.calls(('jls_mrb_peek', 'jls_mrb_pop'))]
+    if not peek_blocks:
+        raise AnalysisBroken('jls_twr_run takes nothing from the ring (no jls_mrb_peek / jls_mrb_pop)')
+    inner = None
+    for hdr, body in lp.items():
+        if peek_blocks[0] in body and (inner is None or len(body) < len(inner[1])):
+            inner = (hdr, body)
+    if inner is None:
+        ctx.ob(rule, False, run_fn.name, 'inner consumer loop', run_fn.where(), 'jls_mrb_peek is not inside a loop')
+    else:
+        hdr, body = inner
+        nexits = 0
+        for bid in body:
+            b = run_fn.blocks[bid]
+            for s, label in b.succs:
+                if s.id in body:
+                    continue
+                nexits += 1
+                facts = cond_facts(run_fn, b.cond, label)
+                ok = any(kind == 'eq' and c == 0 for (var, kind, c) in facts) and \
+                    df.derives(run_fn, b.cond, lambda n_: n_.get('op') == 'call' and n_.get('callee') in ('jls_mrb_peek', 'jls_mrb_pop'), *df.cond_pos(b))
+                ctx.ob(rule, ok, run_fn.name, 'exit of the drain loop', '%s:%d' % (run_fn.file, b.line),
+                       'left only when the peeked message is NULL' if ok else 'the drain loop can be left while messages remain (exit on `%s`)' % show(b.cond))
+            for ev in b.events:
+                if ev.k == 'ret':
+                    nexits += 1
+                    ctx.ob(rule, False, run_fn.name, 'exit of the drain loop', ev.where(), 'return inside the drain loop')
+        ctx.floor('exits of the drain loop', nexits, 1)
+        # quit is tested only outside the inner loop
+        for bid in body:
+            b = run_fn.blocks[bid]
+            if b.cond is not None and any(n_.get('op') == 'member' and n_.get('field') == 'quit' for n_ in walk(b.cond)):
+                ctx.ob(rule, False, run_fn.name, '`quit` tested inside the drain loop', '%s:%d' % (run_fn.file, b.line),
+                       'accepted messages can be abandoned when quit is set')
+        outer_tests = [b for b in run_fn.blocks.values() if b.id not in body and b.cond is not None
+                       and any(n_.get('op') == 'member' and n_.get('field') == 'quit' for n_ in walk(b.cond))]
+        ctx.ob(rule, bool(outer_tests), run_fn.name, '`quit` tested by the outer loop', run_fn.where(), '%d test(s) outside the drain loop' % len(outer_tests))
+
